@@ -6,7 +6,8 @@ Case: {"suite":"queue",
        "ops":[{"op":"add","e":eid} | {"op":"remove","e":eid} | {"op":"next"} | {"op":"peek"}
               | {"op":"next_of_type","t":nat} | {"op":"retime","e":eid,"t":int}
               | {"op":"reheapify"} | {"op":"retime_reheapify","e":eid,"t":int}
-              | {"op":"len"} | {"op":"sorted","es":[eid…]} | {"op":"lt","e":eid,"f":eid}]}
+              | {"op":"len"} | {"op":"sorted","es":[eid…]} | {"op":"lt","e":eid,"f":eid}
+              | {"op":"task_types"}]}
 Reply: {"steps":[{"out":…,"q":[eid…]}, …]}: the outcome of every operation and the
 internal list (identities, in list order) after it. Events are mutable objects: `retime`
 changes the object whether or not it is queued.
@@ -71,6 +72,10 @@ def step (s : St) (j : Json) : Except String (St × Json) := do
     let t ← fldInt j "t"
     return ({ evs := s.evs.set! e.eid { e with time := t }, q := s.q.retimeReheapify e.eid t }, Json.null)
   | "len" => return (s, jNat s.q.size)
+  | "task_types" =>
+    -- values of the event types the model treats as task-carrying (ties `taskEventTypeNames`
+    -- and the generated enum table to the constructor checks of the real `Event`)
+    return (s, jList jNat ((taskEventTypeNames.filterMap eventTypeValue?).toArray.qsort (· < ·)).toList)
   | "sorted" =>
     let ids ← fldArr j "es"
     let es ← mapM' (fun v => do lookup s (← v.getNat?)) ids
